@@ -145,6 +145,18 @@ def judge_case(res, exprs, k, rng, hits=None):
     r5 = res["C05"]
     stats = {}
     bad = tight(term, vals, any_ok=False, stats=stats)
+    if not bad and len(types) > 1:
+        # the type merged from the same observations seen in the opposite order must be tight as well (an order-dependent merge can
+        # be loose in one order only)
+        try:
+            rterm = RT.to_rt(mt.shrink_types(list(reversed(types)), k))
+            if rterm != term and not RT.has_unknown(rterm):
+                r5.count("reversed_order_terms_walked")
+                bad = tight(rterm, vals, any_ok=False, stats={})
+                if bad:
+                    term = rterm
+        except Exception:
+            pass
     r5.shape(shp + f"|k{min(k, 11)}")
     r5.count("union_nodes_walked", stats.get("union", 0))
     r5.count("td_nodes_walked", stats.get("td", 0))
